@@ -527,7 +527,10 @@ def rand_desc(rng, nq, ngates, p_pre=0.3, p_py=0.2, p_cw=0.0, barriers=True, src
                 last_pre = len(ops) - 1
                 if hist and rng.random() < 0.35:      # history: a map id was already selected on the pre-placed gate
                     ops[-1]["bid"] = int(rng.integers(0, 6))
-                if hist and rng.random() < 0.35:      # history: `.definition` of the gate was read (and cached) before the call
+                # history: `.definition` of the gate was read (and cached) before the call.  Not for a KAK-path gate with a
+                # selected map (unless C16_UNITARY=1): its cached definition then holds UnitaryGate objects, circuit.copy()
+                # deep-copies the cached definition, and Qiskit's copy shares the matrix arrays (the UnitaryGate observation)
+                if hist and rng.random() < 0.35 and not (name == "rzx" and ops[-1].get("bid") is not None and not WITH_UNITARY):
                     ops[-1]["read_def"] = True
         elif r < p_pre + p_py:
             name = ["rzx", "rzz"][int(rng.integers(0, 2))]
@@ -543,7 +546,12 @@ def rand_desc(rng, nq, ngates, p_pre=0.3, p_py=0.2, p_cw=0.0, barriers=True, src
         ops.append(dict(g="barrier", q=list(range(nq))))
     if nc:
         for _ in range(int(rng.integers(1, 3))):
-            ops.insert(int(rng.integers(0, len(ops) + 1)), dict(g="measure", q=[int(rng.integers(0, nq))], c=[int(rng.integers(0, nc))]))
+            pos = int(rng.integers(0, len(ops) + 1))
+            ops.insert(pos, dict(g="measure", q=[int(rng.integers(0, nq))], c=[int(rng.integers(0, nc))]))
+            for o in ops:                     # keep the references to earlier pre-placed gates pointing at the same gates
+                for key in ("share", "same"):
+                    if key in o and o[key] >= pos:
+                        o[key] += 1
         return dict(nq=nq, nc=nc, ops=ops)
     return dict(nq=nq, ops=ops)
 
@@ -557,7 +565,7 @@ def build_circuit(d):
             if "same" in o:
                 gate = made[o["same"]]
             elif "share" in o:
-                gate = TwoQubitQPDGate(made[o["share"]].basis, label="cut_again")
+                gate = TwoQubitQPDGate(made[o["share"]].basis, label="cut_again", basis_id=o.get("bid"))
             else:
                 gate = TwoQubitQPDGate.from_instruction(GATE_CLS[o["src"]](*p))
                 if o.get("bid") is not None:
@@ -1161,12 +1169,11 @@ def generate(rng, tier, outdir):
         if it % 5 == 1 and qids:        # map_ids=None: needs a selected map on every gate
             for k in qids:
                 o = cd["ops"][k]
-                if "src" in o and o.get("bid") is None:
+                if "same" not in o and o.get("bid") is None:
                     o["bid"] = int(rng.integers(0, 6))
-                if o.get("src") == "rzx" and not WITH_UNITARY:
-                    # a cached definition of a KAK gate holds UnitaryGate objects; circuit.copy() deep-copies the cached
-                    # definition but Qiskit's copy shares the matrix arrays (the UnitaryGate observation) - opt-in only
-                    o.pop("read_def", None)
+                # with map_ids=None the selected map ids are not re-assigned, so an already cached definition is used as it
+                # is (circuit.copy() deep-copies it): that path is not in the heap model (no definition caches) - not generated
+                o.pop("read_def", None)
             du["map_none"] = True
         elif it % 5 == 2 and qids and not any("same" in cd["ops"][k] for k in qids):     # pairs of SingleQubitQPDGates
             du["pairs"] = True
